@@ -140,6 +140,19 @@ var propertyClauses = map[string]clauseInfo{
 			"that pop is only called with a non-empty stack follows from the Walk discipline (Post follows a Pre that pushed); not generated",
 		},
 	},
+	"C05": {
+		decided: []string{
+			"accessors agree with the shape: HeadingLevel is the stored level for ATX/setext headings and 0 elsewhere; IsOrderedList/IsTightList are functions of the delimiter / looseness fields; ListItemNumber is -1 or 0..999999999; LinkDestination/LinkTitle return a child of that kind among the last two children, or nil; InfoString is the first inline child of a fenced block when it has that kind",
+			"heading levels handed to the tree are 1-6 for ATX headings (parseATXHeading's level) and 1-2 for setext headings, at the call sites of the block-start closures",
+			"a list item is opened together with its list marker (the marker block is opened immediately after the item, before any input is consumed, and closed after exactly the marker's bytes), so the marker is the item's first child; list and item carry the marker's delimiter; ordered numbers come from parseListMarker (0..999999999)",
+			"no unparsed node remains, as far as: hasUnparsed reports an unparsed child at any position, and no addToRoot call of the tokeniser adds an unparsed or kind-less node",
+		},
+		notDecided: []string{
+			"which block kinds may contain which (openBlock / blockRules canContain), lists contain only items, list/item agreement on tightness (ListKind.onClose): the block-structure code is not under contract",
+			"link reference definition children (label, destination, optional title) from onCloseParagraph; link/image child layout and \"no link contains a link\" (parseEndBracket, finishLink)",
+			"Rewrite visits every block that hasUnparsed (its stack holds a pointer into the RootBlock value, which the memory model does not support)",
+		},
+	},
 	"C07": {
 		decided: []string{
 			"escapeHTML: the appended region contains none of < > \" ' and every & in it starts one of the five entities it emits (all inputs, unbounded)",
